@@ -494,3 +494,68 @@ def _tag(m):
             tags.add("split")
     m.tags = tags
     return tags
+
+
+# ----------------------------------------------------------------------------------- exhaustive small shapes
+_SHAPES = {}
+
+
+def shape_family(n=4):
+    """every acyclic definition over n tasks t0..t(n-1) (edges i -> j for i < j, `join: all` wherever >= 2 tasks lead
+    to a task), every way of grouping a task's outgoing edges into ONE transition or one transition per target, and
+    every choice, per transition, of publishing the shared variable x (concatenating its own tag) or nothing; roots
+    additionally publish a variable of their own.  At least one join.  Returned as a list of compact descriptions."""
+    if n in _SHAPES:
+        return _SHAPES[n]
+    pairs = [(i, j) for i in range(n) for j in range(i + 1, n)]
+    fam = []
+    for mask in range(1, 1 << len(pairs)):
+        edges = [p for b, p in enumerate(pairs) if mask >> b & 1]
+        inb = {j: [i for i, jj in edges if jj == j] for j in range(n)}
+        if not any(len(v) >= 2 for v in inb.values()):
+            continue
+        out = {i: [j for ii, j in edges if ii == i] for i in range(n)}
+        multi = [i for i in range(n) if len(out[i]) >= 2]
+        for gmask in range(1 << len(multi)):
+            trans = []  # (source, [targets])
+            for i in range(n):
+                if not out[i]:
+                    continue
+                if i in multi and not (gmask >> multi.index(i) & 1):
+                    trans.append((i, list(out[i])))
+                else:
+                    trans.extend((i, [j]) for j in out[i])
+            for pmask in range(1 << len(trans)):
+                fam.append((n, tuple(edges), tuple((s, tuple(t)) for s, t in trans), pmask))
+    _SHAPES[n] = fam
+    return fam
+
+
+def gen_shape(idx, n=4):
+    fam = shape_family(n)
+    n, edges, trans, pmask = fam[idx % len(fam)]
+    m = Model()
+    m.input = [("xs", [10, 20, 30]), ("n", 2), ("k", 2)]
+    m.vars = [("x", "init.x")]
+    inb = {j: [i for i, jj in edges if jj == j] for j in range(n)}
+    for i in range(n):
+        t = Task("t%d" % i)
+        if len(inb[i]) >= 2:
+            t.join = "all"
+        m.tasks[t.name] = t
+    roots = [i for i in range(n) if not inb[i]]
+    for i in roots:
+        m.vars.append(("r%d" % i, "init.r%d" % i))
+    for k, (s, tg) in enumerate(trans):
+        t = m.tasks["t%d" % s]
+        pubs = []
+        if pmask >> k & 1:
+            pubs.append(("x", ("cat", "x", "|t%d.%d" % (s, len(t.trans)))))
+        if s in roots and not t.trans:
+            pubs.append(("r%d" % s, ("lit", "t%d.r" % s)))
+        t.trans.append(Tr(len(t.trans), cond=None, lang=("yaql", "jinja")[(s + k) % 2], pubs=pubs, do=["t%d" % j for j in tg]))
+    m.output = [(v, ("ref", v), ("yaql", "jinja")[q % 2]) for q, (v, _) in enumerate(m.vars)]
+    m.tags |= {"join", "shape", "publish"}
+    if any(len(tg) > 1 for _, tg in trans) or len(roots) > 1:
+        m.tags.add("fork")
+    return m, {}
